@@ -3,6 +3,7 @@ import OmbottModel.Model.CookiesLib
 import OmbottModel.Lemmas.Cookies
 import OmbottModel.Lemmas.B64
 import OmbottModel.Lemmas.CookieTok
+import OmbottModel.Props.EnvCache
 /-!
 C15 — Cookies round-trip; forged signed cookies are never deserialised.
 Property theorems only; helper lemmas live in `Lemmas/Cookies.lean`.  The library parameter
@@ -427,3 +428,35 @@ example : roundTrip exLib "n".toList (.text "é€".toList) [] = (.ok (some (.te
 end NonVacuity
 
 end Ombott.Cookies
+
+/-! ### the cache layer of the request object (general theorem in `Props/EnvCache.lean`) -/
+namespace Ombott.EnvCache
+
+/-- **the cache is never observable** (general statement; scope and residue in `Props/EnvCache.lean`) -/
+theorem c15_cache_unobservable (cfg : Cfg) (L : Lib) (w : World) (ops : List Op)
+    (hW : InvW cfg L w) (hs : Safe cfg L w ops) : run cfg L w ops = specRun cfg L w ops :=
+  cache_unobservable cfg L w ops hW hs
+
+/-- **`cookies` follow the `Cookie` header** (subsumes `reread_after_header_change`: any number of
+requests, copies of copies, assignments and deletions of ANY key): every read of `cookies` is the
+parse of `HTTP_COOKIE` as it is at that moment on that request — a forged cookie put into the
+request after the genuine one was read is parsed on its own, never answered from the cache -/
+theorem c15_cookies_follow_header (cfg : Cfg) (L : Lib) (w : World) (ops : List Op) (hW : FreshW w)
+    (hw : ∀ op ∈ ops, opWithin [.cookies] (fun _ => true) op = true) :
+    run cfg L w ops = specRun cfg L w ops :=
+  cookies_follow_header cfg L w ops hW hw
+
+/-- the dependency cover and the pinned residue, as C15 relies on them -/
+theorem c15_dependency_cover :
+    (∀ row ∈ Gen.ecProps, ∀ K ∈ row.reads, row.key.toList ∈ todelete K.toList ∨ (row.name, K) ∈ Gen.ecUncovered) ∧
+    Gen.ecUncovered.filter (fun p => !ecByDesign.contains p) = pinnedStale :=
+  ⟨dependency_cover, uncovered_pinned.1⟩
+
+section NonVacuity
+/-- the hypotheses of the theorems above are met by the request and library of `Props/EnvCache.lean` and this
+sequence (further instances, out-of-scope sequences and the witnesses of the pinned residue are there) -/
+example : FreshW exWorld ∧ InvW {} exLib exWorld := ⟨FreshW.ofB (by decide), (FreshW.ofB (by decide)).inv {} exLib⟩
+example : ∀ op ∈ [Op.read 0 .cookies, .copy 0, .setStr 1 cs!"HTTP_COOKIE" cs!"z=9", .read 1 .cookies, .del 0 cs!"HTTP_COOKIE", .read 0 .cookies], opWithin [.cookies] (fun _ => true) op = true := by decide
+end NonVacuity
+
+end Ombott.EnvCache
